@@ -1,6 +1,6 @@
 """C19 configuration for ./check (see checks/propcfg.py for the keys)."""
 CFG = {
-    "modules": ["VaxisModel.Props.C19", "VaxisModel.Props.C19Tie", "VaxisModel.Props.C19Exec", "VaxisModel.Props.C19Pager", "VaxisModel.Props.C19Wid", "VaxisModel.Props.C19C15", "VaxisModel.Witness.F49", "VaxisModel.Witness.F50", "VaxisModel.Witness.F119", "VaxisModel.Witness.F119i"],
+    "modules": ["VaxisModel.Props.C19", "VaxisModel.Props.C19Tie", "VaxisModel.Props.C19Exec", "VaxisModel.Props.C19Pager", "VaxisModel.Props.C19Wid", "VaxisModel.Props.C19C15", "VaxisModel.Props.C19All", "VaxisModel.Witness.F49", "VaxisModel.Witness.F50", "VaxisModel.Witness.F119", "VaxisModel.Witness.F119i"],
     "extractors": ["C19", "C11"],
     "drivers": ["C19"],
     "stateful": True,
@@ -86,7 +86,9 @@ CFG = {
                   "step from the regenerated syntax to Model/DynList.lean is no longer a transcription: it is a theorem (via skeleton_* and "
                   "the kernel-evaluated parser); validated by correspondence only: that the interpreter's semantics is Go's for this subset "
                   "(the driver runs every dl op through it: 0 disagreements with model and implementation), Println/SetCell rows. "
-                  "Round 4 (Props/C19C15.lean): list_key_j composes C19 with C15 - in any application state whose focus path runs through a Dynamic list, a j key "
+                  "Round 4 (Props/C19All.lean): dynamic_over_executed_bodies - all clauses for Dynamic in one statement over the executed bodies (history reaches a state; "
+                  "SetCursor + Draw executed: order, contiguity with the gap, heights, no overlap, selected item visible). "
+                  "Round 4 (Props/C19C15.lean): list_key composes C19 with C15 - in any application state whose focus path runs through a Dynamic list, a j key "
                   "is offered to the list in the capture phase, the list (its executed CaptureEvent) moves the selection and answers ConsumeAndRedraw, and the "
                   "dispatch ends there with redraw and consume taking effect once (no other handler sees the key); else the key goes on along the route. "
                   "Round 4 (Props/C19Wid.lean, 18 theorems): list_selected_visible_body, pager_presents_every_character_body, scrollbar_in_track_body (the clauses "
